@@ -7,6 +7,9 @@ Section Spec.
   Variables key cert msg sig : Type.
   Variable cert_of : key -> cert.
   Variable sign : key -> msg -> sig.
+  Variable verify : cert -> msg -> sig -> bool.
+  Variable readable : cert -> bool.
+  Variable blank : cert -> bool.
 
   (* c is published under entity e for signing or with no declared use (stated from the metadata
      structure, not through the model's certs function) *)
@@ -35,6 +38,43 @@ Section Spec.
     forall k e, made_by x k -> claimed x = Some e -> published_for_signing (md x) e (cert_of k) -> fst out = true.
 
   Definition spec (x : input cert msg sig) (out : bool * list cert) : Prop := sound x out /\ complete x out.
+
+  (* ---- finding C03-F2: the claimed issuer publishes, for signing or with no use, a KeyDescriptor that
+     carries no certificate text (MetaData.certs raises KeyError and every key of the issuer is lost) ---- *)
+  Definition blank_published (md : metadata cert) (issuer : option string) : Prop :=
+    exists e c, issuer = Some e /\ published_for_signing md e c /\ blank c = true.
+
+  (* soundness is lost only where the opt-in fallback is on and an enveloped signature is verified *)
+  Definition sguard (x : input cert msg sig) : Prop :=
+    only_md x = false -> detached x = false -> ~ blank_published (md x) (claimed x).
+
+  (* ---- finding C03-F1 (completeness only, detached signatures only): walking the issuer's published
+     signing certificates in order, one that does not load as a certificate comes before any
+     certificate that verifies the signature ---- *)
+  Definition unreadable_first (cs : list cert) (mm : msg) (ss : sig) : Prop :=
+    exists pre c post, cs = (pre ++ c :: post)%list /\ readable c = false /\ forall c', In c' pre -> verify c' mm ss = false.
+
+  Definition guard (x : input cert msg sig) : Prop :=
+    ~ blank_published (md x) (claimed x)
+    /\ (detached x = true -> ~ unreadable_first (walk_certs (md x) (claimed x)) (m x) (s x)).
+
+  (* soundness and completeness, each outside its finding classes *)
+  Definition gspec (x : input cert msg sig) (out : bool * list cert) : Prop :=
+    (sguard x -> sound x out) /\ (guard x -> complete x out).
+
+  (* ---- a long-lived receiver: "the loaded metadata" is the set loaded by the last successful
+     (re)load before the message is verified; P is the per-message requirement ---- *)
+  Definition loaded (init : metadata cert) (pre : list (op cert msg sig)) : metadata cert :=
+    fold_left (fun cur o => match o with Reload m' => m' | _ => cur end) pre init.
+
+  Definition is_check (o : op cert msg sig) : bool := match o with Check _ => true | _ => false end.
+  Definition nchecks (l : list (op cert msg sig)) : nat := length (filter is_check l).
+
+  Definition seq_spec (P : input cert msg sig -> bool * list cert -> Prop)
+    (init : metadata cert) (only : bool) (ops : list (op cert msg sig)) (outs : list (bool * list cert)) : Prop :=
+    length outs = nchecks ops
+    /\ forall pre q post, ops = (pre ++ Check q :: post)%list ->
+         exists o, nth_error outs (nchecks pre) = Some o /\ P (at_md (loaded init pre) only q) o.
 End Spec.
 
 Arguments published_for_signing {cert}.
@@ -44,3 +84,12 @@ Arguments made_by {key cert msg sig}.
 Arguments sound {key cert msg sig}.
 Arguments complete {key cert msg sig}.
 Arguments spec {key cert msg sig}.
+Arguments unreadable_first {cert msg sig}.
+Arguments guard {cert msg sig}.
+Arguments blank_published {cert}.
+Arguments sguard {cert msg sig}.
+Arguments gspec {key cert msg sig}.
+Arguments loaded {cert msg sig}.
+Arguments is_check {cert msg sig}.
+Arguments nchecks {cert msg sig}.
+Arguments seq_spec {cert msg sig}.
